@@ -69,7 +69,7 @@ class Result:
         self.tsan_reports += other.tsan_reports
 
 
-_FRAME = re.compile(r"^\s*#(\d+) 0x[0-9a-f]+ in (\S+) (\S+?)(?::(\d+))?(?::\d+)?\s*$")
+_FRAME = re.compile(r"^\s*#(\d+) (?:0x[0-9a-f]+ in )?(\S+) (\S+?)(?::(\d+))?(?::\d+)?(?: \(\S+\))?\s*$")
 
 
 def parse_sanitizer(stderr, repo=os.environ.get("VERIF_REPO", "/repo")):
